@@ -6,6 +6,7 @@ import TerwayModel.Driver.Bandwidth
 import TerwayModel.Driver.Capacity
 import TerwayModel.Driver.Json
 import TerwayModel.Driver.NetConf
+import TerwayModel.Driver.Datapath
 /-
 `drv`: reads one operation per line (`<model>.<op> arg…`), prints one canonical line per input.
 Malformed or unknown lines print `bad-op` — never a default value.
@@ -15,6 +16,7 @@ open Terway.Drv
 structure St where
   tok : Token.St := {}
   vsw : VSwitch.St := VSwitch.St.init
+  fib : DatapathD.FibSt := {}
 
 def dispatch (st : St) (line : String) : St × String :=
   match words line with
@@ -25,6 +27,11 @@ def dispatch (st : St) (line : String) : St × String :=
     | ["net", op] => (st, (Net.step op args).getD "bad-op")
     | ["bw", op] => (st, (Bandwidth.step op args).getD "bad-op")
     | ["cap", op] => (st, (Capacity.step op args).getD "bad-op")
+    | ["fib", op] =>
+      match DatapathD.fibStep st.fib op args with
+      | some (t, o) => ({ st with fib := t }, o)
+      | none => (st, "bad-op")
+    | ["dp", op] => (st, (DatapathD.step op args).getD "bad-op")
     | ["nc", op] => (st, (NetConfD.step op args).getD "bad-op")
     | ["cfg", op] => (st, (JsonD.step op args).getD "bad-op")
     | ["cni", op] => (st, (JsonD.chainStep op args).getD "bad-op")
